@@ -6,16 +6,18 @@ Scope
   (quick: at most 3 hyperedges for N = 5).  Sampled beyond: seeded random connected hypergraphs on 6..10 nodes, sizes
   2..5, weighted and unweighted, hyperedges inserted as unsorted tuples in shuffled order (30 quick / 200 thorough).
   Per hypergraph: the matrix, the stationary state, densities for the N unit vectors, the uniform and one random
-  starting density over horizon 6, and sampled walks of 8 steps (20 seeds; quick: start = seed mod N, thorough: every
-  start x 20 seeds).
+  starting density over horizon 6, and sampled walks of 8 steps (20 seeds with start = seed mod N; thorough: 4 more
+  seeds from every start).
 * simplicial_contagion.  Exhaustive: every hypergraph on the nodes 0..N-1 (all nodes present, isolated ones included)
-  with hyperedges of sizes 2..5 and every initial condition: N <= 3 all hypergraphs, every horizon T = 1..6 and every
-  rate triple in {0, .3, 1}^3; N = 4 with <= 3 hyperedges (thorough: all 2048), every rate triple; N = 5 with <= 2
-  hyperedges (thorough: <= 3), the 8 deterministic triples for all of them and the 19 stochastic triples only when all
-  hyperedges have size <= 3 (quick: 6 of the 19, sampled per input); thorough additionally N = 5 with 4 hyperedges of
-  sizes 2..3, 8 sampled initial conditions each, deterministic triples.  For N >= 4: T = 6 for the deterministic
-  triples, T cycling through 2..6 for the stochastic ones.  Sampled beyond: random hypergraphs on 6..9 nodes with
-  string / offset / plain labels, sizes 2..5, random initial conditions, all deterministic and 6 stochastic triples.
+  with hyperedges of sizes 2..5 and every initial condition, always with the 8 deterministic rate triples {0,1}^3:
+  N <= 3 all hypergraphs and every horizon T = 1..6; N = 4 with <= 3 hyperedges (thorough: all 2048); N = 5 with <= 2
+  hyperedges (thorough: <= 3); thorough additionally N = 5 with 4 hyperedges of sizes 2..3 for 4 sampled initial
+  conditions each.  The 19 stochastic triples of {0,.3,1}^3 (those containing .3): all of them for N <= 3, for N = 4
+  with <= 4 hyperedges (quick: <= 3) and, thorough, for N = 5 with <= 2 hyperedges of sizes 2..3; 6 sampled triples per
+  input for N = 5 with <= 2 (quick) / exactly 3 (thorough) hyperedges of sizes 2..3.  For N >= 4: T = 6 for the
+  deterministic triples, T cycling through 2..6 for the stochastic ones.  Sampled beyond: random hypergraphs on 6..9
+  nodes with string / offset / plain labels, sizes 2..5, random initial conditions, all deterministic and 6 stochastic
+  triples.
 
 Oracle: written from the statement with exact rationals (fractions) and plain sets: W[i][j] = sum over hyperedges
 containing i and j (i != j) of (size-1); the matrix clause is diagonal-agnostic (off-diagonal entries of row i equal
@@ -341,7 +343,7 @@ def _gen_cases(ctx):
                 if quick:
                     walks = [[sd % N, sd] for sd in range(20)]
                 else:
-                    walks = [[s, sd] for s in range(N) for sd in range(20)]
+                    walks = [[sd % N, sd] for sd in range(20)] + [[s, 20 + sd] for s in range(N) for sd in range(4)]
                 add(dict(kind="rw", N=N, edges=[list(e) for e in es], T=6, steps=8, walks=walks))
     # ---- random walk: sampled larger
     for i in range(30 if quick else 200):
@@ -391,18 +393,20 @@ def _gen_cases(ctx):
             for es in itertools.combinations(pool, k):
                 small_sizes = all(len(e) <= 3 for e in es)
                 for I0 in itertools.product((0, 1), repeat=N):
-                    if N <= 4:
+                    if N <= 3 or (N == 4 and k <= 4):
                         st = sto
-                    elif not small_sizes:
+                    elif not small_sizes or N == 4:
                         st = []
+                    elif quick or k == 3:
+                        st = rng.sample(sto, 6)
                     else:
-                        st = rng.sample(sto, 6) if quick else sto
+                        st = sto
                     add(dict(kind="sc", nodes=nodes, edges=[list(e) for e in es], I0=list(I0), runs=runs_for(N, st)))
         if N == 5 and not quick:
             pool23 = _all_edges(N, 2, 3)
             ics = list(itertools.product((0, 1), repeat=N))
             for es in itertools.combinations(pool23, 4):
-                for I0 in rng.sample(ics, 8):
+                for I0 in rng.sample(ics, 4):
                     add(dict(kind="sc", nodes=nodes, edges=[list(e) for e in es], I0=list(I0),
                              runs=runs_for(N, [])))
     # ---- contagion: sampled larger, other label kinds
@@ -447,7 +451,7 @@ def _descs(p):
 def run(ctx):
     _load()
     ctx.rule("random walk: one case = one connected hypergraph (matrix, stationary state, N+2 starting densities over "
-             "horizon 6, 20 or 20*N seeded walks of 8 steps); non-trivial = at least 3 nodes. contagion: one case = "
+             "horizon 6, 20 or 20+4*N seeded walks of 8 steps); non-trivial = at least 3 nodes. contagion: one case = "
              "(hypergraph, initial condition, T, rate triple, draw); non-trivial = at least one hyperedge, at least one "
              "infected node and T >= 2")
     ctx.assume("tolerances: 1e-12 absolute for transition-matrix entries, density steps and contagion fractions; 1e-9 for "
@@ -490,9 +494,10 @@ def run(ctx):
                                 "<= %s hyperedges" % ("4 (N <= 4) / 3 (N = 5)" if ctx.quick else "4"))
     ctx.exhaustive_parts.append("contagion, deterministic rate triples {0,1}^3, every initial condition: every hypergraph "
                                 "on nodes 0..N-1 with hyperedges of sizes 2..5 for N <= 3 (every T = 1..6), N = 4 with %s, "
-                                "N = 5 with <= %d hyperedges (T = 6); all 27 triples of {0,.3,1}^3 for N <= 4%s"
+                                "N = 5 with <= %d hyperedges (T = 6); all 27 triples of {0,.3,1}^3 for N <= 3 and for N = 4 "
+                                "with <= %d hyperedges"
                                 % ("<= 3 hyperedges" if ctx.quick else "any number of hyperedges", 2 if ctx.quick else 3,
-                                   "" if ctx.quick else " and for N = 5 when all hyperedges have size <= 3"))
+                                   3 if ctx.quick else 4))
     _CASES = []
 
 
